@@ -31,10 +31,24 @@ bool parse_with_base(const vf::UrlCase& c, U& out, bool& base_ok) {
 
 void run_case(const uint8_t* data, size_t size, vf::Case& c) {
   ada::set_max_input_length(UINT32_MAX);
+  struct RestoreLimit { ~RestoreLimit() { ada::set_max_input_length(UINT32_MAX); } } restore_limit;
   vf::ByteSource bs(data, size);
   vf::UrlCase uc = vf::decode_url_case(bs, 8);
   c.hash = vf::hash_case(uc);
   if (c.want_render) c.render = vf::render_case(uc);
+  vf::warm_siblings(uc.input, uc.has_base ? &uc.base : nullptr, c.hash);  // a related input is parsed first (results ignored)
+  // One case in six runs under a configured maximum length near the sizes involved (decoded
+  // from the bytes AFTER the case, so older inputs keep their meaning): the two types must
+  // refuse and roll back the same operations.
+  if (bs.chance(42)) {
+    size_t ref = uc.input.size() + (uc.has_base && bs.coin() ? uc.base.size() : 0);
+    uint32_t L = (uint32_t)std::max<size_t>(1, ref + bs.below(40)) - (uint32_t)std::min<size_t>(ref, bs.below(12));
+    if (L == 0) L = 1;
+    ada::set_max_input_length(L);
+    c.hash = vf::fnv1a(std::to_string(L), c.hash);
+    if (c.want_render) c.render += " ; max_input_length=" + std::to_string(L);
+    VF_TAG("under_length_limit");
+  }
 
   ada::url u;
   ada::url_aggregator a;
